@@ -4,6 +4,7 @@ CONSTANTS
  NBk = 4
  Inits <- MCInits
  InoutInits <- MCInoutInits
+ DevInits <- MCDevInits
  RouteInits <- MCRouteInits
  Runs = 1
  QueuePersists = FALSE
@@ -18,6 +19,7 @@ CONSTANTS
  DevLinkDirect = FALSE
  DevBackupCount = FALSE
  DevInplaceInput = FALSE
+ DevMoveBeforeClose = FALSE
  DevRouteDiscard = TRUE
 INVARIANT SuccessState
 CHECK_DEADLOCK FALSE
